@@ -1,6 +1,7 @@
 import PdeVerif.Props.C13
 import Mathlib.Algebra.BigOperators.Intervals
 import Mathlib.Logic.Function.Iterate
+import Mathlib.Analysis.Real.Sqrt
 /-
 C13, second file (gap round): the three clauses that `Props/C13.lean` decided only step by step.
 
@@ -19,6 +20,9 @@ C13, second file (gap round): the three clauses that `Props/C13.lean` decided on
    draws - the definition the driver evaluates against the real code; the driver also executes `runGen` itself with
    the list as generator), `runGen_one_call_per_step` (final generator state = `m` calls; step `j` uses the array of
    call `j`), `runGen_explicit_total`, `runGen_explicit_sum` (2 and 3 composed).
+4. field-dependent variance over the reals (`quadSys`, Model; the driver builds every `quad` case through it):
+   `quad_variance_hyps` (the root / volume hypotheses hold for every state with `Real.sqrt`), `quadVarDiff_is_derivative`,
+   `quad_runGen_sum`, `quadSys_runGen_sum` (no hypothesis left but `dt ≥ 0`, positive volumes, non-negative coefficients).
 -/
 namespace PdeVerif.Noise
 open PdeVerif PdeVerif.Grids
@@ -457,4 +461,117 @@ example : (exColl .stratonovich).step .euler 0 #[1, 1, 1, 1, 1, 1] #[1, 1, 1, 1,
   decide +kernel
 
 end examples2
+section realquad
+
+/-- **Field-dependent variance over the reals: the hypotheses of the run theorems hold.**  For the closure the
+driver builds for the harness's multiplicative-noise family (`var = quadVar .. g0 g2`, i.e. `g0 + g2*u²` per component,
+`inv = 1/vol`, `s = sqrt dt`) with the real square root, non-negative coefficients, positive cell volumes (any,
+non-uniform) and `dt ≥ 0`, the root and volume hypotheses of `run_explicit_documented` / `run_explicit_sum` /
+`runGen_explicit_sum` hold for *every* state. -/
+theorem quad_variance_hyps (S : Sys ℝ) (vol g0 g2 : Array ℝ)
+    (hsq : S.sqrt = Real.sqrt) (hs : S.s = Real.sqrt S.dt) (hdt : 0 ≤ S.dt)
+    (hvar : S.var = quadVar S.n S.ncell g0 g2) (hinv : S.inv = invCell vol)
+    (hnc : S.ncell = vol.size) (hpos : 0 < vol.size)
+    (hvol : ∀ c, c < vol.size → 0 < get vol c)
+    (hg0 : ∀ j, 0 ≤ get g0 j) (hg2 : ∀ j, 0 ≤ get g2 j) :
+    S.s * S.s = S.dt ∧ 0 ≤ S.s ∧
+    (∀ i, i < S.n → get S.inv (i % S.ncell) = 1 / get vol (i % S.ncell)) ∧
+    (∀ (u : Array ℝ) (i : Nat), i < S.n →
+      RootOn S.sqrt (get (S.var u) i * get S.inv (i % S.ncell))) := by
+  have hmod : ∀ i, i % S.ncell < vol.size := fun i => by rw [hnc]; exact Nat.mod_lt _ hpos
+  have hi : ∀ i, get S.inv (i % S.ncell) = 1 / get vol (i % S.ncell) := by
+    intro i; rw [hinv]; exact get_invCell vol _ (hmod i)
+  refine ⟨by rw [hs]; exact Real.mul_self_sqrt hdt, by rw [hs]; exact Real.sqrt_nonneg _,
+    fun i _ => hi i, ?_⟩
+  intro u i hin
+  have hv : 0 ≤ get (S.var u) i := by
+    rw [hvar, quadVar, get_tab _ hin]
+    exact add_nonneg (hg0 _) (mul_nonneg (hg2 _) (mul_self_nonneg _))
+  have hx : 0 ≤ get (S.var u) i * get S.inv (i % S.ncell) := by
+    rw [hi i]
+    exact mul_nonneg hv (le_of_lt (one_div_pos.mpr (hvol _ (hmod i))))
+  rw [hsq]
+  exact ⟨Real.mul_self_sqrt hx, Real.sqrt_nonneg _⟩
+
+/-- the derivative the closure hands to the drift and the Milstein correction is the derivative of its variance:
+`d/dx (g0 + g2*x²) = 2*g2*x`, entry-wise (as an identity of the difference quotient, no limit needed):
+`var(x+h) - var(x) = (varDiff(x) + g2*h) * h` -/
+theorem quadVarDiff_is_derivative (n ncell : Nat) (g0 g2 u w : Array ℝ) (i : Nat) (hi : i < n) :
+    get (quadVar n ncell g0 g2 w) i - get (quadVar n ncell g0 g2 u) i
+      = (get (quadVarDiff n ncell g2 u) i + get g2 (i / ncell) * (get w i - get u i)) * (get w i - get u i) := by
+  rw [quadVar, quadVar, quadVarDiff, get_tab _ hi, get_tab _ hi, get_tab _ hi]
+  push_cast
+  ring
+
+/-- whole runs with field-dependent variance over the reals (Stratonovich / anti-Itô drift and Milstein correction
+present, non-uniform volumes, any number of steps, generator threaded) -/
+theorem quad_runGen_sum {σ : Type} (S : Sys ℝ) (vol g0 g2 : Array ℝ) (sol : Solver) (hsol : sol ≠ .implicit)
+    (hsq : S.sqrt = Real.sqrt) (hs : S.s = Real.sqrt S.dt) (hdt : 0 ≤ S.dt) (hreal : S.real = none)
+    (hvar : S.var = quadVar S.n S.ncell g0 g2) (hvd : S.varDiff = quadVarDiff S.n S.ncell g2)
+    (hinv : S.inv = invCell vol) (hnc : S.ncell = vol.size) (hpos : 0 < vol.size)
+    (hvol : ∀ c, c < vol.size → 0 < get vol c)
+    (hg0 : ∀ j, 0 ≤ get g0 j) (hg2 : ∀ j, 0 ≤ get g2 j)
+    (next : σ → Array ℝ × σ) (m k : Nat) (u : Array ℝ) (g : σ) :
+    ∃ (st : Nat → Array ℝ),
+      st 0 = u ∧ S.runGen sol next k m u g = some (st m, genAfter next m g) ∧
+      ∀ M i, M ≤ m → i < S.n → get (st M) i = get u i + ∑ j ∈ Finset.range M,
+        docIncr sol S.interp.alpha S.dt (get (S.rate (k + j) (st j)) i)
+          (Real.sqrt ((get g0 (i / S.ncell) + get g2 (i / S.ncell) * (get (st j) i * get (st j) i)) * S.dt
+            / get vol (i % S.ncell)))
+          (get (next (genAfter next j g)).1 i)
+          (2 * get g2 (i / S.ncell) * get (st j) i) (get vol (i % S.ncell)) := by
+  obtain ⟨h1, h2, h3, h4⟩ := quad_variance_hyps S vol g0 g2 hsq hs hdt hvar hinv hnc hpos hvol hg0 hg2
+  obtain ⟨st, r, h0, hrun, hr, hsum⟩ := runGen_explicit_sum S vol sol hsol h1 h2 hreal h3 h4 next m k u g
+  refine ⟨st, h0, hrun, ?_⟩
+  intro M i hM hi
+  rw [hsum M i hM hi]
+  congr 1
+  apply Finset.sum_congr rfl
+  intro j hj
+  have hjm : j < m := by have := Finset.mem_range.mp hj; omega
+  obtain ⟨ra, rb⟩ := hr j i hjm hi
+  have hv : get (S.var (st j)) i = get g0 (i / S.ncell) + get g2 (i / S.ncell) * (get (st j) i * get (st j) i) := by
+    rw [hvar, quadVar, get_tab _ hi]
+  have hd : get (S.varDiff (st j)) i = 2 * get g2 (i / S.ncell) * get (st j) i := by
+    rw [hvd, quadVarDiff, get_tab _ hi]; push_cast; ring
+  have hroot : r j i = Real.sqrt ((get g0 (i / S.ncell) + get g2 (i / S.ncell) * (get (st j) i * get (st j) i)) * S.dt
+      / get vol (i % S.ncell)) := by
+    rw [← hv, ← rb, Real.sqrt_mul_self ra]
+  rw [hroot, hd]
+
+
+/-- the same for the closure `quadSys` the driver builds for every field-dependent case, with the real root: all
+structural hypotheses hold by construction -/
+theorem quadSys_runGen_sum {σ : Type} (dt : ℝ) (I : Interp) (n : Nat) (vol g0 g2 : Array ℝ)
+    (rate : Nat → Array ℝ → Array ℝ) (maxiter : Nat) (maxerr2 : ℝ) (sol : Solver) (hsol : sol ≠ .implicit)
+    (hdt : 0 ≤ dt) (hpos : 0 < vol.size) (hvol : ∀ c, c < vol.size → 0 < get vol c)
+    (hg0 : ∀ j, 0 ≤ get g0 j) (hg2 : ∀ j, 0 ≤ get g2 j)
+    (next : σ → Array ℝ × σ) (m k : Nat) (u : Array ℝ) (g : σ) :
+    let S := quadSys Real.sqrt dt I n vol g0 g2 rate none maxiter maxerr2
+    ∃ (st : Nat → Array ℝ),
+      st 0 = u ∧ S.runGen sol next k m u g = some (st m, genAfter next m g) ∧
+      ∀ M i, M ≤ m → i < n → get (st M) i = get u i + ∑ j ∈ Finset.range M,
+        docIncr sol I.alpha dt (get (rate (k + j) (st j)) i)
+          (Real.sqrt ((get g0 (i / vol.size) + get g2 (i / vol.size) * (get (st j) i * get (st j) i)) * dt
+            / get vol (i % vol.size)))
+          (get (next (genAfter next j g)).1 i)
+          (2 * get g2 (i / vol.size) * get (st j) i) (get vol (i % vol.size)) :=
+  quad_runGen_sum (quadSys Real.sqrt dt I n vol g0 g2 rate none maxiter maxerr2) vol g0 g2 sol hsol rfl rfl hdt
+    rfl rfl rfl rfl rfl hpos hvol hg0 hg2 next m k u g
+
+/-- the hypotheses are satisfiable: two cells of volumes 4 and 1, variance `1 + u²/2` -/
+example : (0 : ℝ) ≤ 1 / 4 ∧ 0 < (#[4, 1] : Array ℝ).size ∧ (∀ c, c < (#[4, 1] : Array ℝ).size → 0 < get (#[4, 1] : Array ℝ) c) ∧
+    (∀ j, 0 ≤ get (#[1] : Array ℝ) j) ∧ (∀ j, 0 ≤ get (#[1 / 2] : Array ℝ) j) := by
+  refine ⟨by norm_num, by decide, ?_, ?_, ?_⟩
+  · intro c hc
+    have hc' : c < 2 := hc
+    match c, hc' with
+    | 0, _ => simp [get]
+    | 1, _ => simp [get]
+  · intro j
+    rcases j with _ | j <;> simp [get, zero]
+  · intro j
+    rcases j with _ | j <;> simp [get, zero]
+
+end realquad
 end PdeVerif.Noise
